@@ -14,7 +14,9 @@ FUNCTIONS = {
     'C03': ['Container.__init__', 'Container._self_add', 'Container._add', 'Container._transfer', 'Container.remove',
             'Container.fill_to'],
     'C10': ['Container.__init__', 'Container._self_add', 'Container._add', 'Container._transfer', 'Container.remove',
-            'Container.fill_to', 'Container.get_volume', 'Container.get_concentration'],
+            'Container.fill_to', 'Container.get_volume', 'Container.get_concentration', 'PlateSlicer.get_volumes',
+            'PlateSlicer.get_moles', 'PlateSlicer.get_substances', 'Plate.get_volumes', 'Plate.get_moles',
+            'Plate.get_substances'],
     'C17': ['Container.remove', 'PlateSlicer.remove', 'Plate.remove', 'Slicer.apply'],
     'C07': ['Slicer.apply', 'Slicer.set', 'Slicer.get', 'Container._transfer_slice', 'PlateSlicer._transfer',
             'PlateSlicer.remove', 'PlateSlicer.fill_to', 'Plate.transfer', 'Plate.remove', 'Plate.fill_to',
@@ -67,6 +69,11 @@ def tasks(tier, pid):
         t.append(('float_targets', 40 if tier == 'quick' else 400))
     if pid == 'C10':
         t.append(('syntactic_cached',))
+        from contracts import plate_observers as PB
+        t += [('plate_observer',) + x for x in PB.tasks(tier)]
+    if pid == 'C04':
+        from contracts import plate_observers as PB
+        t += [('plate_observer',) + x for x in PB.tasks(tier) if x[1] in ('plate', 'rect', 'list2')]
     if pid in ('C04', 'C07', 'C17'):
         from contracts import bake as BK
         t += [('bake',) + x for x in BK.tasks(tier, pid) if x[0] == 'step']
@@ -135,6 +142,12 @@ def run(pid, kind, *args):
     if kind == 'float_bounded':
         from contracts import c03_float
         return c03_float.run(*args)
+    if kind == 'plate_observer':
+        from contracts import plate_observers as PB
+        rs = PB.run(pid, *args)
+        if pid == 'C04':       # observers write nothing and hand out new objects
+            rs = [r for r in rs if r['kind'] != 'property' or any(k in r['name'] for k in ('/frame', '/fresh', 'unsupported'))]
+        return rs
     if kind == 'float_targets':
         from contracts import float_targets
         return float_targets.run(pid, *args)
